@@ -55,6 +55,7 @@ func (p *Program) genFunc(fc *FuncContract) (g *Gen, fr *Frame, ur *UnitResult) 
 	ur.Name = unitNameOf(fn)
 	ur.Func = fn.String()
 	g = newGen(p, fc.IntMode)
+	g.edgeCovers = p.EdgeCovers
 	if fn.Pkg != nil {
 		g.curPkg = fn.Pkg.Pkg
 	}
